@@ -72,6 +72,17 @@ CHECKS = {
         quick_timeout=900, thorough_timeout=10800),
 }
 
+# facets added in later rounds (appended to the level text of the check)
+ADDENDA = {
+    "C03": " Later additions: the loader class rotates over Safe / Full / Base / unsafe loaders of both back-ends and a harness loader with path resolvers and extra implicit resolvers (the descend / ascend / prefix-check code is idle in the shipped classes); in an eighth of the cases the stream itself raises at a seeded read() call (12 kinds) and the caller must see that very exception or a YAMLError; str() of every YAMLError must not raise.",
+    "C07": " Later additions: loader class rotation; a third of the clean-text cases keep ALL deliveries alive at once as generators advanced in a seeded interleaving; in-memory deliveries of a defective text are repeated right after a clean text of the same length was loaded and released (address reuse; replays are attempted five times).",
+    "C10": " Later addition: the quoting of plain strings by each dumper class is predicted from the model's implicit resolvers (restated rule), because a reference class shares whatever the serializer shares between classes.",
+    "C11": " Later additions: the pool is widened by seeded corpus / synthetic texts and recipe-built values carried inside the operation; twin calls (an ==-equal variant of the value just dumped - 1 / True / 1.0, 0.0 / -0.0 -, the same events / nodes under other options or another dumper class); event and node objects are kept by the caller across the calls of a history; mode stream_object drives ONE Loader object by check_data / get_data and carries on after a ConstructorError (documents after a failed one must be what they are alone).",
+    "C16": " Later additions: the neighbour of the value inside a dump_all stream and inside one document is often an ==-equal variant of it (the in-document clause compares the representation graph); dump histories contain stream-less dumps that fail half-way and a failed dump of the very object that is dumped afterwards (repaired in place); keys of several hundred characters that must be escaped; strings with line breaks / blanks / tabs at their edges. Three families whose round trip is inexact on the unchanged tree keep the exactness guard (NEL/LS/PS, width <= 20, folded style with a long text that has a line beginning with a blank).",
+    "C18": " Later additions: the convenience wrappers safe_/full_/unsafe_load_all (generator functions of their own); bound runs through genuine files on disk (fileno, size) besides io.StringIO / BytesIO / RawIOBase objects; malformation kinds 'text on the line of the ... marker'.",
+    "C19": " Later additions: the convenience wrappers (safe_load(_all), full_load(_all), unsafe_load(_all), safe_dump_all, serialize) and the Unsafe / CBase classes; harness classes with path resolvers; dumps into genuine io.BytesIO / io.StringIO objects (after the caller lets go of the exception the stream must still be open and hold a prefix); object-API streams of 30-80 documents in which a user constructor fails every time below deep-constructing user constructors (each failure must be the injected instance, every other document the fault-free value, a fault-free follow-up clean).",
+}
+
 ENGINE = {
     "name": "pyyaml-sim",
     "path": "/verif/sim",
@@ -90,7 +101,7 @@ def main():
             "evidence_file": "/verif/evidence/%s.json" % pid,
             "replay_cmd_template": "./check %s --replay {path}" % pid,
             "engine": "pyyaml-sim",
-            "level_claimed": {"category": c['category'], "text": c['text'], "design_ref": c['design_ref']},
+            "level_claimed": {"category": c['category'], "text": c['text'] + ADDENDA.get(pid, ''), "design_ref": c['design_ref']},
             "level_note": c['note'],
             "technique": c['technique'],
         })
